@@ -1,14 +1,19 @@
 import SE.Proofs.Template
 /-
 C11, glob side: on templates that satisfy `SafeSegs` the `NewTemplateFormatter` / `Format` pair
-(reference regex repaired: the name class is `[a-zA-Z0-9_]`) computes `expandSpec`.
+(reference regex repaired: the name class is `[a-zA-Z0-9_]`; `%` escaped and the references
+substituted in ONE left-to-right pass since b74fba2) computes `expandSpec`.
 
 Structure of the proof (tmpl = flatSegs segs):
   A. `findRefs` finds exactly the references of `segs`              (`findRefs_flat`)
-  B. each textual `ReplaceAll` turns the occurrences of one reference text into `%s` / nothing and
-     leaves everything else alone                                    (`replaceAll_render`, `fold_render`)
-  C. `Sprintf` on the final format string fills the captures in      (`sprintf_renderAll`)
+  B. `%`-escaping leaves the references alone (`refMatchAt_escapePct`, `findRefs_escapePct`), and the
+     single pass over the escaped template yields the escaped literals with `%s` at the usable
+     references, nothing at the others, and the indexes in order   (`substRefs_flat`)
+  C. `Sprintf` on that format string un-escapes the literals and fills the captures in
+                                                                     (`sprintfS_escapePct`, `sprintf_fmtOf`)
   D. `expandSpec` on `flatSegs segs` yields the same bytes           (`expandSpec_flat`, `expected_eq_specOut`)
+  E. for EVERY template (no guard) the format string stays inside the modelled `Sprintf` fragment
+                                                                     (`substRefs_fmtOk`, `compileTemplate_format_isSome`)
 -/
 namespace SE
 
@@ -76,66 +81,12 @@ theorem dollar_not_mem_refTail (b : Bool) (ds : Bytes) (hd : ds.all isWordByte =
   · simp only [if_true, List.mem_cons, List.mem_append, List.not_mem_nil, or_false, not_or]
     exact ⟨by decide, this, by decide⟩
 
-/-- a reference text determines its digits -/
-theorem refText_inj (b b0 : Bool) (ds ds0 : Bytes) (hd : ds.all isWordByte = true) (hd0 : ds0.all isWordByte = true)
-    (hne : ds ≠ []) (hne0 : ds0 ≠ []) (h : refText b ds = refText b0 ds0) : ds = ds0 := by
-  unfold refText at h
-  cases b <;> cases b0
-  · simpa using h
-  · simp only [Bool.false_eq_true, if_false, if_true, List.cons.injEq, true_and] at h
-    exfalso
-    cases ds with
-    | nil => exact hne rfl
-    | cons d ds' =>
-      simp only [List.cons.injEq] at h
-      have := word_ne_lbrace d (by simp only [List.all_cons, Bool.and_eq_true] at hd; exact hd.1)
-      exact this h.1
-  · simp only [Bool.false_eq_true, if_false, if_true, List.cons.injEq, true_and] at h
-    exfalso
-    cases ds0 with
-    | nil => exact hne0 rfl
-    | cons d ds' =>
-      simp only [List.cons.injEq] at h
-      have := word_ne_lbrace d (by simp only [List.all_cons, Bool.and_eq_true] at hd0; exact hd0.1)
-      exact this h.1.symm
-  · simp only [if_true, List.cons.injEq, true_and] at h
-    exact List.append_cancel_right h
 
 def refsOf : List Seg → List (Bytes × Bytes)
   | [] => []
   | .lit _ :: segs => refsOf segs
   | .ref b ds :: segs => (refText b ds, ds) :: refsOf segs
 
-theorem refTexts_eq (segs : List Seg) : refTexts segs = (refsOf segs).map (·.1) := by
-  induction segs with
-  | nil => rfl
-  | cons s segs ih => cases s <;> simp [refTexts, refsOf, ih]
-
-theorem mem_refsOf (segs : List Seg) (m : Bytes × Bytes) (h : m ∈ refsOf segs) :
-    ∃ b ds, Seg.ref b ds ∈ segs ∧ m = (refText b ds, ds) := by
-  induction segs with
-  | nil => cases h
-  | cons s segs ih =>
-    cases s with
-    | lit l =>
-      obtain ⟨b, ds, h1, h2⟩ := ih h
-      exact ⟨b, ds, List.mem_cons_of_mem _ h1, h2⟩
-    | ref b ds =>
-      simp only [refsOf, List.mem_cons] at h
-      rcases h with rfl | h
-      · exact ⟨b, ds, List.mem_cons_self, rfl⟩
-      · obtain ⟨b', ds', h1, h2⟩ := ih h
-        exact ⟨b', ds', List.mem_cons_of_mem _ h1, h2⟩
-
-theorem mem_refTexts_of_mem (segs : List Seg) (b : Bool) (ds : Bytes) (h : Seg.ref b ds ∈ segs) :
-    refText b ds ∈ refTexts segs := by
-  induction segs with
-  | nil => cases h
-  | cons s segs ih =>
-    simp only [List.mem_cons] at h
-    rcases h with rfl | h
-    · simp [refTexts]
-    · cases s <;> simp [refTexts, ih h]
 
 /-- the facts `segOk` gives about a reference -/
 theorem segOk_ref (b : Bool) (ds : Bytes) (h : segOk (.ref b ds) = true) :
@@ -156,9 +107,11 @@ theorem segOk_ref (b : Bool) (ds : Bytes) (h : segOk (.ref b ds) = true) :
     have h1 : ds.all (fun b => decide (48 ≤ b) && decide (b ≤ 57)) = false := hnd
     simp [h1]
 
-theorem segOk_lit (l : Bytes) (h : segOk (.lit l) = true) : cDollar ∉ l ∧ cPct ∉ l := by
-  simp only [segOk, Bool.and_eq_true, Bool.not_eq_true', List.contains_eq_mem, decide_eq_false_iff_not] at h
+
+theorem segOk_lit (l : Bytes) (h : segOk (.lit l) = true) : cDollar ∉ l := by
+  simp only [segOk, Bool.not_eq_true', List.contains_eq_mem, decide_eq_false_iff_not] at h
   exact h
+
 
 /-! ### A. `findRefs` on a segmented template -/
 
@@ -281,7 +234,7 @@ theorem findRefs_flat : ∀ (segs : List Seg) (fuel : Nat), (∀ s ∈ segs, seg
     | lit l =>
       have hl := segOk_lit l (hok _ List.mem_cons_self)
       simp only [flatSegs, Seg.text, List.length_append] at hf ⊢
-      rw [findRefs_plain l fuel _ hl.1 (by omega), refsOf]
+      rw [findRefs_plain l fuel _ hl (by omega), refsOf]
       exact ih _ hok' (by simpa [followOk] using hfo) (by omega)
     | ref b ds =>
       obtain ⟨hne, hd, _⟩ := segOk_ref b ds (hok _ List.mem_cons_self)
@@ -293,242 +246,404 @@ theorem findRefs_flat : ∀ (segs : List Seg) (fuel : Nat), (∀ s ∈ segs, seg
         simp only [findRefs, beq_self_eq_true, if_true, refMatchAt_ref b ds _ hne hd ht, refsOf, refText_cons]
         rw [ih fuel hok' hfo' (by omega)]
 
-/-! ### B. the successive `ReplaceAll`s -/
 
-/-- argument index of a reference (`none`: out of range, replaced by nothing) -/
+/-! ### B. `%`-escaping and the single substitution pass -/
+
+theorem escapePct_cons (b : UInt8) (s : Bytes) :
+    escapePct (b :: s) = (if b == cPct then [cPct, cPct] else [b]) ++ escapePct s := by
+  simp [escapePct]
+
+theorem escapePct_cons_pct (s : Bytes) : escapePct (cPct :: s) = cPct :: cPct :: escapePct s := by
+  rw [escapePct_cons]; rfl
+
+theorem escapePct_cons_plain (b : UInt8) (s : Bytes) (hb : (b == cPct) = false) :
+    escapePct (b :: s) = b :: escapePct s := by
+  rw [escapePct_cons]; simp [hb]
+
+theorem escapePct_append (s t : Bytes) : escapePct (s ++ t) = escapePct s ++ escapePct t := by
+  simp [escapePct]
+
+/-- a text without `%` is not changed by the escaping -/
+theorem escapePct_plain (s : Bytes) (h : cPct ∉ s) : escapePct s = s := by
+  induction s with
+  | nil => rfl
+  | cons b s ih =>
+    simp only [List.mem_cons, not_or] at h
+    have hb : (b == cPct) = false := by
+      cases hbb : (b == cPct) with
+      | false => rfl
+      | true => exfalso; apply h.1; simp at hbb; exact hbb.symm
+    rw [escapePct_cons_plain b s hb, ih h.2]
+
+theorem dollar_not_mem_escapePct (l : Bytes) (h : cDollar ∉ l) : cDollar ∉ escapePct l := by
+  induction l with
+  | nil => exact h
+  | cons b l ih =>
+    simp only [List.mem_cons, not_or] at h
+    rw [escapePct_cons]
+    simp only [List.mem_append, not_or]
+    refine ⟨?_, ih h.2⟩
+    split
+    · decide
+    · simpa using h.1
+
+theorem word_ne_pct (d : UInt8) (h : isWordByte d = true) : d ≠ cPct := by
+  intro e; subst e; revert h; decide
+
+theorem pct_not_mem_word (ds : Bytes) (hd : ds.all isWordByte = true) : cPct ∉ ds := by
+  intro hm
+  have := List.all_eq_true.mp hd _ hm
+  revert this; decide
+
+/-- a reference text contains no `%`: the escaping does not touch `$`, `{`, `}` or name bytes -/
+theorem pct_not_mem_refText (b : Bool) (ds : Bytes) (hd : ds.all isWordByte = true) : cPct ∉ refText b ds := by
+  have := pct_not_mem_word ds hd
+  unfold refText
+  cases b
+  · simp only [Bool.false_eq_true, if_false, List.mem_cons, not_or]
+    exact ⟨by decide, this⟩
+  · simp only [if_true, List.mem_cons, List.mem_append, List.not_mem_nil, or_false, not_or]
+    exact ⟨by decide, by decide, this, by decide⟩
+
+/-- the escaping does not change the first byte -/
+theorem tailOk_escapePct (b : Bool) (R : Bytes) (h : tailOk b R) : tailOk b (escapePct R) := by
+  intro hb
+  have h1 := h hb
+  cases R with
+  | nil => trivial
+  | cons c r =>
+    simp only at h1
+    by_cases hc : (c == cPct) = true
+    · have hce : c = cPct := by simpa using hc
+      subst hce
+      rw [escapePct_cons_pct]
+      exact h1
+    · have hc' : (c == cPct) = false := by simpa using hc
+      rw [escapePct_cons_plain c r hc']
+      exact h1
+
+/-- the escaping does not change the name run at the head of a text … -/
+theorem takeWhile_escapePct (s : Bytes) : (escapePct s).takeWhile isRefByte = s.takeWhile isRefByte := by
+  induction s with
+  | nil => rfl
+  | cons b s ih =>
+    by_cases hb : (b == cPct) = true
+    · have : b = cPct := by simpa using hb
+      subst this
+      rw [escapePct_cons_pct]
+      have : isRefByte cPct = false := by decide
+      simp [this]
+    · have hb' : (b == cPct) = false := by simpa using hb
+      rw [escapePct_cons_plain b s hb']
+      simp only [List.takeWhile_cons, ih]
+
+/-- … and commutes with dropping it -/
+theorem drop_takeWhile_escapePct (s : Bytes) :
+    (escapePct s).drop (s.takeWhile isRefByte).length = escapePct (s.drop (s.takeWhile isRefByte).length) := by
+  induction s with
+  | nil => rfl
+  | cons b s ih =>
+    by_cases hr : isRefByte b = true
+    · have hb' : (b == cPct) = false := by
+        have := word_ne_pct b hr
+        simpa using this
+      rw [escapePct_cons_plain b s hb']
+      simp only [List.takeWhile_cons, hr, if_true, List.length_cons, List.drop_succ_cons]
+      exact ih
+    · simp [hr]
+
+theorem takeWhile_append_drop {α : Type} (p : α → Bool) (l : List α) :
+    l.takeWhile p ++ l.drop (l.takeWhile p).length = l := by
+  induction l with
+  | nil => rfl
+  | cons a l ih =>
+    by_cases h : p a = true
+    · simp only [List.takeWhile_cons, h, if_true, List.length_cons, List.drop_succ_cons, List.cons_append, ih]
+    · simp [h]
+
+/-- `refMatchAt` after the optional `{` (`pre`) has been taken off -/
+def refMatchCore (pre r1 : Bytes) : Option (Bytes × Bytes × Bytes) :=
+  let grp := r1.takeWhile isRefByte
+  if grp.isEmpty then none
+  else
+    let r2 := r1.drop grp.length
+    match r2 with
+    | b :: r3 => if b == cRBrace then some (pre ++ grp ++ [cRBrace], grp, r3) else some (pre ++ grp, grp, r2)
+    | [] => some (pre ++ grp, grp, [])
+
+theorem refMatchAt_eq_core (rest : Bytes) :
+    refMatchAt rest = match rest with
+      | [] => none
+      | b :: r => if b == cLBrace then refMatchCore [cLBrace] r else refMatchCore [] (b :: r) := by
+  cases rest with
+  | nil => rfl
+  | cons b r =>
+    by_cases hb : (b == cLBrace) = true
+    · simp only [hb, if_true]; unfold refMatchAt refMatchCore; simp only [hb, if_true]; rfl
+    · have hb' : (b == cLBrace) = false := by simpa using hb
+      simp only [hb', Bool.false_eq_true, if_false]; unfold refMatchAt refMatchCore
+      simp only [hb', Bool.false_eq_true, if_false]; rfl
+
+theorem refMatchCore_escapePct (pre r1 : Bytes) :
+    refMatchCore pre (escapePct r1) = (refMatchCore pre r1).map fun x => (x.1, x.2.1, escapePct x.2.2) := by
+  unfold refMatchCore
+  simp only [takeWhile_escapePct, drop_takeWhile_escapePct]
+  by_cases hg : (r1.takeWhile isRefByte).isEmpty = true
+  · simp only [hg, if_true]; rfl
+  · have hg' : (r1.takeWhile isRefByte).isEmpty = false := by simpa using hg
+    simp only [hg', Bool.false_eq_true, if_false]
+    generalize r1.drop (r1.takeWhile isRefByte).length = r2
+    cases r2 with
+    | nil => rfl
+    | cons c r3 =>
+      by_cases hc : (c == cPct) = true
+      · have hce : c = cPct := by simpa using hc
+        subst hce
+        have : (cPct == cRBrace) = false := by decide
+        simp only [escapePct_cons_pct, this, Bool.false_eq_true, if_false, Option.map_some]
+      · have hc' : (c == cPct) = false := by simpa using hc
+        by_cases hcb : (c == cRBrace) = true
+        · simp only [escapePct_cons_plain c r3 hc', hcb, if_true, Option.map_some]
+        · have hcb' : (c == cRBrace) = false := by simpa using hcb
+          simp only [escapePct_cons_plain c r3 hc', hcb', Bool.false_eq_true, if_false, Option.map_some]
+
+/-- **`%`-escaping does not touch the references** (1): the formatter's regex, anchored after a `$`,
+    matches in the escaped text exactly what it matches in the original one, and what remains is the
+    escaped remainder. -/
+theorem refMatchAt_escapePct (rest : Bytes) :
+    refMatchAt (escapePct rest) = (refMatchAt rest).map fun x => (x.1, x.2.1, escapePct x.2.2) := by
+  cases rest with
+  | nil => rfl
+  | cons b r =>
+    by_cases hb : (b == cLBrace) = true
+    · have hbe : b = cLBrace := by simpa using hb
+      subst hbe
+      have hp : (cLBrace == cPct) = false := by decide
+      rw [escapePct_cons_plain cLBrace r hp, refMatchAt_eq_core, refMatchAt_eq_core]
+      simp only [beq_self_eq_true, if_true]
+      exact refMatchCore_escapePct _ r
+    · have hb' : (b == cLBrace) = false := by simpa using hb
+      have hcore := refMatchCore_escapePct [] (b :: r)
+      rw [refMatchAt_eq_core (b :: r)]
+      simp only [hb', Bool.false_eq_true, if_false]
+      rw [← hcore]
+      by_cases hp : (b == cPct) = true
+      · have hbe : b = cPct := by simpa using hp
+        subst hbe
+        rw [escapePct_cons_pct, refMatchAt_eq_core]
+        simp only [hb', Bool.false_eq_true, if_false]
+      · have hp' : (b == cPct) = false := by simpa using hp
+        rw [escapePct_cons_plain b r hp', refMatchAt_eq_core]
+        simp only [hb', Bool.false_eq_true, if_false]
+
+theorem refMatchCore_split (pre r1 m g r : Bytes) (hpre : cPct ∉ pre) (h : refMatchCore pre r1 = some (m, g, r)) :
+    pre ++ r1 = m ++ r ∧ cPct ∉ m := by
+  have hg : cPct ∉ r1.takeWhile isRefByte := by
+    intro hm
+    have := List.all_eq_true.mp (List.all_takeWhile (p := isRefByte) (l := r1)) _ hm
+    revert this; decide
+  have hsplit : r1 = r1.takeWhile isRefByte ++ r1.drop (r1.takeWhile isRefByte).length :=
+    (takeWhile_append_drop isRefByte r1).symm
+  unfold refMatchCore at h
+  simp only at h
+  split at h
+  · cases h
+  · split at h
+    · rename_i c r3 hr2
+      split at h
+      · rename_i hc
+        have hce : c = cRBrace := by simpa using hc
+        simp only [Option.some.injEq, Prod.mk.injEq] at h
+        obtain ⟨rfl, _, rfl⟩ := h
+        refine ⟨?_, ?_⟩
+        · conv => lhs; rw [hsplit, hr2, hce]
+          simp
+        · simp only [List.mem_append, not_or, List.mem_singleton]
+          exact ⟨⟨hpre, hg⟩, by decide⟩
+      · simp only [Option.some.injEq, Prod.mk.injEq] at h
+        obtain ⟨rfl, _, rfl⟩ := h
+        refine ⟨?_, ?_⟩
+        · conv => lhs; rw [hsplit]
+          simp
+        · simp only [List.mem_append, not_or]; exact ⟨hpre, hg⟩
+    · rename_i hr2
+      simp only [Option.some.injEq, Prod.mk.injEq] at h
+      obtain ⟨rfl, _, rfl⟩ := h
+      refine ⟨?_, ?_⟩
+      · conv => lhs; rw [hsplit, hr2]
+        simp
+      · simp only [List.mem_append, not_or]; exact ⟨hpre, hg⟩
+
+/-- a match of the formatter's regex splits the text into the match and the remainder, and the match
+    contains no `%` -/
+theorem refMatchAt_split (rest m g r : Bytes) (h : refMatchAt rest = some (m, g, r)) :
+    rest = m ++ r ∧ cPct ∉ m := by
+  rw [refMatchAt_eq_core] at h
+  cases rest with
+  | nil => cases h
+  | cons b r' =>
+    simp only at h
+    split at h
+    · rename_i hb
+      have hbe : b = cLBrace := by simpa using hb
+      subst hbe
+      have := refMatchCore_split [cLBrace] r' m g r (by decide) h
+      simpa using this
+    · have := refMatchCore_split [] (b :: r') m g r (by simp) h
+      simpa using this
+
+theorem findRefs_nil' (fuel : Nat) : findRefs fuel [] = [] := by cases fuel <;> rfl
+
+/-- **`%`-escaping does not touch the references** (2): `FindAllStringSubmatch` returns the same
+    (match, group) pairs on the escaped template as on the original one -/
+theorem findRefs_escapePct : ∀ (fuel fuel' : Nat) (t : Bytes), t.length ≤ fuel → (escapePct t).length ≤ fuel' →
+    findRefs fuel' (escapePct t) = findRefs fuel t := by
+  intro fuel
+  induction fuel with
+  | zero =>
+    intro fuel' t h _
+    have : t = [] := by cases t <;> simp_all
+    subst this
+    exact findRefs_nil' fuel'
+  | succ fuel ih =>
+    intro fuel' t h h'
+    cases t with
+    | nil => exact findRefs_nil' fuel'
+    | cons b rest =>
+      simp only [List.length_cons] at h
+      by_cases hd : (b == cDollar) = true
+      · have hbe : b = cDollar := by simpa using hd
+        subst hbe
+        have hp : (cDollar == cPct) = false := by decide
+        rw [escapePct_cons_plain cDollar rest hp] at h' ⊢
+        cases fuel' with
+        | zero => simp at h'
+        | succ fuel' =>
+          simp only [List.length_cons] at h'
+          simp only [findRefs, beq_self_eq_true, if_true, refMatchAt_escapePct]
+          cases hm : refMatchAt rest with
+          | none => exact ih fuel' rest (by omega) (by omega)
+          | some x =>
+            obtain ⟨m, g, r⟩ := x
+            obtain ⟨hsp, _⟩ := refMatchAt_split rest m g r hm
+            have hl : r.length ≤ rest.length := by rw [hsp]; simp
+            have hl' : (escapePct r).length ≤ (escapePct rest).length := by
+              rw [hsp, escapePct_append]; simp
+            simp only [Option.map_some]
+            rw [ih fuel' r (by omega) (by omega)]
+      · have hd' : (b == cDollar) = false := by simpa using hd
+        by_cases hp : (b == cPct) = true
+        · have hbe : b = cPct := by simpa using hp
+          subst hbe
+          rw [escapePct_cons_pct] at h' ⊢
+          simp only [List.length_cons] at h'
+          cases fuel' with
+          | zero => omega
+          | succ fuel' =>
+            cases fuel' with
+            | zero => omega
+            | succ fuel' =>
+              simp only [findRefs, hd', Bool.false_eq_true, if_false]
+              exact ih fuel' rest (by omega) (by omega)
+        · have hp' : (b == cPct) = false := by simpa using hp
+          rw [escapePct_cons_plain b rest hp'] at h' ⊢
+          simp only [List.length_cons] at h'
+          cases fuel' with
+          | zero => omega
+          | succ fuel' =>
+            simp only [findRefs, hd', Bool.false_eq_true, if_false]
+            exact ih fuel' rest (by omega) (by omega)
+
+/-- in particular with the fuels `NewTemplateFormatter` would use -/
+theorem findRefs_escapePct_self (t : Bytes) :
+    findRefs (escapePct t).length (escapePct t) = findRefs t.length t :=
+  findRefs_escapePct t.length (escapePct t).length t (Nat.le_refl _) (Nat.le_refl _)
+
+/-- argument index of a reference (`none`: not a number, `0`, or out of range — replaced by nothing) -/
 def idxOf (n : Nat) (ds : Bytes) : Option Nat :=
   match atoiDigits ds with
   | some idx => if idx > n || idx < 1 then none else some (idx - 1)
   | none => none
 
+/-- what a reference becomes in the format string -/
 def substOf (n : Nat) (ds : Bytes) : Bytes :=
   match idxOf n ds with
   | some _ => [cPct, 115]
   | none => []
 
-theorem dollar_not_mem_substOf (n : Nat) (ds : Bytes) : cDollar ∉ substOf n ds := by
-  unfold substOf; split <;> decide
-
-/-- the format string while the references whose text is in `D` have been rewritten -/
-def render (n : Nat) (D : List Bytes) : List Seg → Bytes
+/-- the format string of a segmented template: escaped literals, `%s` at the usable references -/
+def fmtOf (n : Nat) : List Seg → Bytes
   | [] => []
-  | .lit l :: segs => l ++ render n D segs
-  | .ref b ds :: segs => (if refText b ds ∈ D then substOf n ds else refText b ds) ++ render n D segs
+  | .lit l :: segs => escapePct l ++ fmtOf n segs
+  | .ref _ ds :: segs => substOf n ds ++ fmtOf n segs
 
-/-- the loop body of `NewTemplateFormatter` -/
-def stepFn (n : Nat) (f : Formatter) (m : Bytes × Bytes) : Formatter :=
-  match atoiDigits m.2 with
-  | some idx =>
-    if idx > n || idx < 1 then { f with fmtStr := replaceAll m.1 [] f.fmtStr.length f.fmtStr }
-    else ⟨f.indexes ++ [idx - 1], replaceAll m.1 [cPct, 115] f.fmtStr.length f.fmtStr⟩
-  | none => { f with fmtStr := replaceAll m.1 [] f.fmtStr.length f.fmtStr }
+/-- the indexes of the usable references, in order -/
+def idxsOf (n : Nat) : List Seg → List Nat
+  | [] => []
+  | .lit _ :: segs => idxsOf n segs
+  | .ref _ ds :: segs => (idxOf n ds).toList ++ idxsOf n segs
 
-theorem compileTemplate_eq_fold (tmpl : Bytes) (n : Nat) :
-    compileTemplate tmpl n = (findRefs tmpl.length tmpl).foldl (stepFn n) ⟨[], tmpl⟩ := by
-  unfold compileTemplate
-  simp only
-  split
-  · rename_i h
-    have : findRefs tmpl.length tmpl = [] := by simpa using h
-    rw [this]; rfl
-  · rfl
+theorem substRefs_nil (n fuel : Nat) : substRefs n fuel [] = ([], []) := by cases fuel <;> rfl
 
-theorem stepFn_eq (n : Nat) (f : Formatter) (m : Bytes × Bytes) :
-    stepFn n f m = ⟨f.indexes ++ (idxOf n m.2).toList, replaceAll m.1 (substOf n m.2) f.fmtStr.length f.fmtStr⟩ := by
-  unfold stepFn substOf idxOf
-  cases atoiDigits m.2 with
-  | none => simp
-  | some idx =>
-    by_cases h : (idx > n || idx < 1) = true
-    · simp only [h, if_true]; simp
-    · simp only [h]; simp
-
-theorem replaceAll_nil (old new : Bytes) (fuel : Nat) : replaceAll old new fuel [] = [] := by
-  cases fuel <;> rfl
-
-theorem replaceAll_plain (old new : Bytes) (hd : old.head? = some cDollar) :
-    ∀ (l : Bytes) (fuel : Nat) (rest : Bytes), cDollar ∉ l → l.length ≤ fuel →
-      replaceAll old new fuel (l ++ rest) = l ++ replaceAll old new (fuel - l.length) rest := by
+/-- text without `$` is copied by the pass -/
+theorem substRefs_plain (n : Nat) : ∀ (l : Bytes) (fuel : Nat) (rest : Bytes), cDollar ∉ l → l.length ≤ fuel →
+    substRefs n fuel (l ++ rest) =
+      (l ++ (substRefs n (fuel - l.length) rest).1, (substRefs n (fuel - l.length) rest).2) := by
   intro l
   induction l with
   | nil => intro fuel rest _ _; simp
   | cons b l ih =>
-    intro fuel rest hm hf
-    simp only [List.mem_cons, not_or] at hm
+    intro fuel rest hd hf
+    simp only [List.mem_cons, not_or] at hd
     cases fuel with
     | zero => simp at hf
     | succ fuel =>
-      have hp : old.isPrefixOf (b :: (l ++ rest)) = false := by
-        cases old with
-        | nil => simp at hd
-        | cons o os =>
-          simp only [List.head?_cons, Option.some.injEq] at hd
-          subst hd
-          have : (cDollar == b) = false := by
-            cases hbb : (cDollar == b) with
-            | false => rfl
-            | true => exfalso; apply hm.1; simpa using hbb
-          simp [List.isPrefixOf, this]
-      simp only [List.cons_append, replaceAll, hp, Bool.false_and, Bool.false_eq_true, if_false,
-        List.length_cons, List.cons.injEq, true_and]
-      rw [ih fuel rest hm.2 (by simpa using hf)]
-      congr 2; omega
+      have hb : (b == cDollar) = false := by
+        cases hbb : (b == cDollar) with
+        | false => rfl
+        | true => exfalso; apply hd.1; simp at hbb; exact hbb.symm
+      simp only [List.cons_append, substRefs, hb, Bool.false_eq_true, if_false, List.length_cons]
+      rw [ih fuel rest hd.2 (by simpa using hf)]
+      have : fuel + 1 - (l.length + 1) = fuel - l.length := by omega
+      rw [this]
 
-/-- one `ReplaceAll(old, new)`: occurrences of `old` are exactly the not yet rewritten references
-    with that text -/
-theorem replaceAll_render (n : Nat) (b0 : Bool) (ds0 : Bytes) (D : List Bytes)
-    (hne0 : ds0 ≠ []) (hd0 : ds0.all isWordByte = true) :
-    ∀ (segs : List Seg) (fuel : Nat), (∀ s ∈ segs, segOk s = true) →
-      (∀ t ∈ refTexts segs, (refText b0 ds0 <+: t → refText b0 ds0 = t) ∧ (t <+: refText b0 ds0 → t = refText b0 ds0)) →
-      (render n D segs).length ≤ fuel →
-      replaceAll (refText b0 ds0) (substOf n ds0) fuel (render n D segs) = render n (refText b0 ds0 :: D) segs := by
-  have hhead : (refText b0 ds0).head? = some cDollar := by rw [refText_cons]; rfl
+/-- **the single pass on a segmented template**: the format string and the indexes -/
+theorem substRefs_flat (n : Nat) : ∀ (segs : List Seg) (fuel : Nat), (∀ s ∈ segs, segOk s = true) →
+    followOk segs = true → (escapePct (flatSegs segs)).length ≤ fuel →
+    substRefs n fuel (escapePct (flatSegs segs)) = (fmtOf n segs, idxsOf n segs) := by
   intro segs
   induction segs with
-  | nil => intro fuel _ _ _; exact replaceAll_nil _ _ _
+  | nil => intro fuel _ _ _; exact substRefs_nil n fuel
   | cons s segs ih =>
-    intro fuel hok hpf hf
+    intro fuel hok hfo hf
     have hok' : ∀ s ∈ segs, segOk s = true := fun s hs => hok s (List.mem_cons_of_mem _ hs)
     cases s with
     | lit l =>
-      have hl := segOk_lit l (hok _ List.mem_cons_self)
-      simp only [render, List.length_append] at hf ⊢
-      rw [replaceAll_plain _ _ hhead l fuel _ hl.1 (by omega)]
-      rw [ih _ hok' (by simpa [refTexts] using hpf) (by omega)]
+      have hl := dollar_not_mem_escapePct l (segOk_lit l (hok _ List.mem_cons_self))
+      simp only [flatSegs, Seg.text, escapePct_append, List.length_append] at hf ⊢
+      rw [substRefs_plain n _ fuel _ hl (by omega)]
+      rw [ih _ hok' (by simpa [followOk] using hfo) (by omega)]
+      rfl
     | ref b ds =>
       obtain ⟨hne, hd, _⟩ := segOk_ref b ds (hok _ List.mem_cons_self)
-      have hpf' : ∀ t ∈ refTexts segs, (refText b0 ds0 <+: t → refText b0 ds0 = t) ∧ (t <+: refText b0 ds0 → t = refText b0 ds0) :=
-        fun t ht => hpf t (by simp [refTexts, ht])
-      have hpf0 := hpf (refText b ds) (by simp [refTexts])
-      simp only [render] at hf ⊢
-      by_cases hD : refText b ds ∈ D
-      · -- already rewritten
-        have hD' : refText b ds ∈ refText b0 ds0 :: D := List.mem_cons_of_mem _ hD
-        simp only [hD, hD', if_true, List.length_append] at hf ⊢
-        rw [replaceAll_plain _ _ hhead _ fuel _ (dollar_not_mem_substOf n ds) (by omega)]
-        rw [ih _ hok' hpf' (by omega)]
-      · by_cases heq : refText b ds = refText b0 ds0
-        · -- an occurrence of `old`
-          have hds : ds = ds0 := refText_inj b b0 ds ds0 hd hd0 hne hne0 heq
-          have hD' : refText b ds ∈ refText b0 ds0 :: D := by rw [heq]; exact List.mem_cons_self
-          simp only [hD, hD', if_true, if_false, List.length_append] at hf ⊢
-          rw [heq] at hf ⊢
-          rw [hds]
-          have hlen : 0 < (refText b0 ds0).length := by rw [refText_cons]; simp
-          cases fuel with
-          | zero => omega
-          | succ fuel =>
-            cases hold : refText b0 ds0 with
-            | nil => rw [hold] at hlen; simp at hlen
-            | cons o os =>
-              rw [hold] at hf
-              simp only [List.cons_append, replaceAll]
-              have hp : (o :: os).isPrefixOf (o :: (os ++ render n D segs)) = true := by
-                rw [List.isPrefixOf_iff_prefix]; exact ⟨render n D segs, by simp⟩
-              simp only [hp, List.isEmpty_cons, Bool.not_false, Bool.and_self, if_true]
-              have hdrop : List.drop (o :: os).length (o :: (os ++ render n D segs)) = render n D segs := by
-                simp
-              rw [hdrop, ← hold, ih fuel hok' hpf' (by simp at hf; omega)]
-        · -- another, not yet rewritten reference: copied
-          have hD' : refText b ds ∉ refText b0 ds0 :: D := by
-            simp only [List.mem_cons, not_or]; exact ⟨heq, hD⟩
-          simp only [hD, hD', if_false, List.length_append] at hf ⊢
-          rw [refText_cons b ds] at hf ⊢
-          simp only [List.cons_append, List.length_cons] at hf ⊢
-          cases fuel with
-          | zero => omega
-          | succ fuel =>
-            have hp : (refText b0 ds0).isPrefixOf (cDollar :: (refTail b ds ++ render n D segs)) = false := by
-              cases hpp : (refText b0 ds0).isPrefixOf (cDollar :: (refTail b ds ++ render n D segs)) with
-              | false => rfl
-              | true =>
-                exfalso
-                rw [List.isPrefixOf_iff_prefix] at hpp
-                have h2 : refText b ds <+: cDollar :: (refTail b ds ++ render n D segs) :=
-                  ⟨render n D segs, by rw [refText_cons]; simp⟩
-                rcases List.prefix_or_prefix_of_prefix hpp h2 with h | h
-                · exact heq (hpf0.1 h).symm
-                · exact heq (hpf0.2 h)
-            simp only [replaceAll, hp, Bool.false_and, Bool.false_eq_true, if_false, List.cons.injEq, true_and]
-            rw [replaceAll_plain _ _ hhead _ fuel _ (dollar_not_mem_refTail b ds hd) (by omega)]
-            rw [ih _ hok' hpf' (by omega)]
+      obtain ⟨ht, hfo'⟩ := followOk_cons_ref b ds segs hfo
+      have ht' := tailOk_escapePct b _ ht
+      simp only [flatSegs, Seg.text, escapePct_append, escapePct_plain _ (pct_not_mem_refText b ds hd)] at hf ⊢
+      simp only [refText_cons, List.cons_append, List.length_cons, List.length_append] at hf ⊢
+      cases fuel with
+      | zero => omega
+      | succ fuel =>
+        simp only [substRefs, beq_self_eq_true, if_true, refMatchAt_ref b ds _ hne hd ht']
+        rw [ih fuel hok' hfo' (by omega)]
+        simp only [fmtOf, idxsOf, substOf, idxOf]
+        cases atoiDigits ds with
+        | none => rfl
+        | some idx =>
+          by_cases h : (idx > n || idx < 1) = true
+          · simp only [h, if_true]; rfl
+          · simp only [h]; rfl
 
-theorem render_congr (n : Nat) (D D' : List Bytes) (segs : List Seg)
-    (h : ∀ t ∈ refTexts segs, t ∈ D ↔ t ∈ D') : render n D segs = render n D' segs := by
-  induction segs with
-  | nil => rfl
-  | cons s segs ih =>
-    cases s with
-    | lit l => simp only [render]; rw [ih (by simpa [refTexts] using h)]
-    | ref b ds =>
-      simp only [render]
-      have h1 := h (refText b ds) (by simp [refTexts])
-      rw [ih (fun t ht => h t (by simp [refTexts, ht]))]
-      by_cases hD : refText b ds ∈ D
-      · simp [hD, h1.mp hD]
-      · have : refText b ds ∉ D' := fun h' => hD (h1.mpr h')
-        simp [hD, this]
-
-/-- the whole loop -/
-theorem fold_render (n : Nat) (segs : List Seg) (hok : ∀ s ∈ segs, segOk s = true)
-    (hpf : ∀ a ∈ refTexts segs, ∀ b ∈ refTexts segs, a <+: b → a = b) :
-    ∀ (ms : List (Bytes × Bytes)) (f : Formatter) (D : List Bytes),
-      (∀ m ∈ ms, ∃ b ds, Seg.ref b ds ∈ segs ∧ m = (refText b ds, ds)) →
-      f.fmtStr = render n D segs →
-      ms.foldl (stepFn n) f =
-        ⟨f.indexes ++ ms.filterMap (fun m => idxOf n m.2), render n (ms.map (·.1) ++ D) segs⟩ := by
-  intro ms
-  induction ms with
-  | nil => intro f D _ hf; cases f; simp at hf ⊢; exact hf
-  | cons m ms ih =>
-    intro f D hms hf
-    obtain ⟨b0, ds0, hmem, rfl⟩ := hms m List.mem_cons_self
-    obtain ⟨hne0, hd0, _⟩ := segOk_ref b0 ds0 (hok _ hmem)
-    have hin := mem_refTexts_of_mem segs b0 ds0 hmem
-    have hstep : (stepFn n f (refText b0 ds0, ds0)).fmtStr = render n (refText b0 ds0 :: D) segs := by
-      rw [stepFn_eq]
-      simp only
-      rw [hf]
-      exact replaceAll_render n b0 ds0 D hne0 hd0 segs _ hok
-        (fun t ht => ⟨fun h => hpf _ hin _ ht h, fun h => hpf _ ht _ hin h⟩) (Nat.le_refl _)
-    rw [List.foldl_cons, ih _ (refText b0 ds0 :: D) (fun m hm => hms m (List.mem_cons_of_mem _ hm)) hstep]
-    have hidx : (stepFn n f (refText b0 ds0, ds0)).indexes = f.indexes ++ (idxOf n ds0).toList := by
-      rw [stepFn_eq]
-    rw [hidx]
-    congr 1
-    · cases h : idxOf n ds0 <;> simp [h]
-    · apply render_congr
-      intro t _
-      simp only [List.mem_append, List.mem_cons, List.map_cons, List.mem_map]
-      constructor
-      · rintro (h | h | h)
-        · exact Or.inl (Or.inr h)
-        · exact Or.inl (Or.inl h)
-        · exact Or.inr h
-      · rintro ((h | h) | h)
-        · exact Or.inr (Or.inl h)
-        · exact Or.inl h
-        · exact Or.inr (Or.inr h)
-
-/-! ### C. `Sprintf` on the final format string -/
-
-/-- all references rewritten -/
-def renderAll (n : Nat) : List Seg → Bytes
-  | [] => []
-  | .lit l :: segs => l ++ renderAll n segs
-  | .ref _ ds :: segs => substOf n ds ++ renderAll n segs
-
-theorem render_all (n : Nat) (D : List Bytes) (segs : List Seg) (h : ∀ t ∈ refTexts segs, t ∈ D) :
-    render n D segs = renderAll n segs := by
-  induction segs with
-  | nil => rfl
-  | cons s segs ih =>
-    cases s with
-    | lit l => simp only [render, renderAll]; rw [ih (by simpa [refTexts] using h)]
-    | ref b ds =>
-      simp only [render, renderAll]
-      rw [ih (fun t ht => h t (by simp [refTexts, ht]))]
-      simp [h (refText b ds) (by simp [refTexts])]
+/-! ### C. `Sprintf` on the format string -/
 
 def argsOf (n : Nat) (caps : List Bytes) : List Seg → List Bytes
   | [] => []
@@ -542,76 +657,76 @@ def expected (n : Nat) (caps : List Bytes) : List Seg → Bytes
   | .ref _ ds :: segs => (match idxOf n ds with | some i => caps.getD i [] | none => []) ++ expected n caps segs
 
 theorem args_eq (n : Nat) (caps : List Bytes) (segs : List Seg) :
-    ((refsOf segs).filterMap (fun m => idxOf n m.2)).map (fun i => caps.getD i []) = argsOf n caps segs := by
+    (idxsOf n segs).map (fun i => caps.getD i []) = argsOf n caps segs := by
   induction segs with
   | nil => rfl
   | cons s segs ih =>
     cases s with
-    | lit l => simpa [refsOf, argsOf] using ih
+    | lit l => simpa [idxsOf, argsOf] using ih
     | ref b ds =>
-      simp only [refsOf, argsOf, List.filterMap_cons]
-      cases h : idxOf n ds with
-      | none => simpa using ih
-      | some i => simp only [List.map_cons, ih]; rfl
+      simp only [idxsOf, argsOf, List.map_append, ih]
+      cases h : idxOf n ds <;> rfl
 
 theorem sprintfS_cons_plain (b : UInt8) (rest : Bytes) (args : List Bytes) (hb : (b == cPct) = false) :
     sprintfS (b :: rest) args = (sprintfS rest args).map (b :: ·) := by
   rw [sprintfS.eq_def]; simp [hb]
 
-theorem sprintfS_plain : ∀ (l rest : Bytes) (args : List Bytes), cPct ∉ l →
-    sprintfS (l ++ rest) args = (sprintfS rest args).map (l ++ ·) := by
+theorem sprintfS_pct_pct (R : Bytes) (args : List Bytes) :
+    sprintfS (cPct :: cPct :: R) args = (sprintfS R args).map (cPct :: ·) := by
+  rw [sprintfS.eq_def]
+  have : (cPct == (115 : UInt8)) = false := by decide
+  simp [this]
+
+/-- `Sprintf` un-escapes an escaped literal, whatever the arguments (it consumes none) -/
+theorem sprintfS_escapePct : ∀ (l rest : Bytes) (args : List Bytes),
+    sprintfS (escapePct l ++ rest) args = (sprintfS rest args).map (l ++ ·) := by
   intro l
   induction l with
-  | nil => intro rest args _; simp
+  | nil => intro rest args; simp [escapePct]
   | cons b l ih =>
-    intro rest args hm
-    simp only [List.mem_cons, not_or] at hm
-    have hb : (b == cPct) = false := by
-      cases hbb : (b == cPct) with
-      | false => rfl
-      | true => exfalso; apply hm.1; simp at hbb; exact hbb.symm
-    rw [List.cons_append, sprintfS_cons_plain _ _ _ hb]
-    rw [ih rest args hm.2]
-    cases sprintfS rest args <;> simp
+    intro rest args
+    by_cases hb : (b == cPct) = true
+    · have hbe : b = cPct := by simpa using hb
+      subst hbe
+      rw [escapePct_cons_pct, List.cons_append, List.cons_append, sprintfS_pct_pct, ih rest args]
+      cases sprintfS rest args <;> simp
+    · have hb' : (b == cPct) = false := by simpa using hb
+      rw [escapePct_cons_plain b l hb', List.cons_append, sprintfS_cons_plain _ _ _ hb', ih rest args]
+      cases sprintfS rest args <;> simp
 
 theorem sprintfS_pct_s (R a : Bytes) (as : List Bytes) :
     sprintfS (cPct :: 115 :: R) (a :: as) = (sprintfS R as).map (a ++ ·) := by
   rw [sprintfS.eq_def]; simp
 
-theorem sprintf_renderAll (n : Nat) (caps : List Bytes) (segs : List Seg) (hok : ∀ s ∈ segs, segOk s = true) :
-    sprintfS (renderAll n segs) (argsOf n caps segs) = some (expected n caps segs) := by
+/-- no hypothesis about the literals: whatever they contain has been escaped. This also covers a
+    template whose references are all unusable (`$5` with two captures, `$foo`): no arguments, and
+    `Sprintf` still un-escapes `%%`. -/
+theorem sprintf_fmtOf (n : Nat) (caps : List Bytes) (segs : List Seg) :
+    sprintfS (fmtOf n segs) (argsOf n caps segs) = some (expected n caps segs) := by
   induction segs with
-  | nil => simp [renderAll, argsOf, expected, sprintfS]
+  | nil => simp [fmtOf, argsOf, expected, sprintfS]
   | cons s segs ih =>
-    have ih' := ih (fun s hs => hok s (List.mem_cons_of_mem _ hs))
     cases s with
     | lit l =>
-      have hl := segOk_lit l (hok _ List.mem_cons_self)
-      simp only [renderAll, argsOf, expected]
-      rw [sprintfS_plain l _ _ hl.2, ih']; rfl
+      simp only [fmtOf, argsOf, expected]
+      rw [sprintfS_escapePct l _ _, ih]; rfl
     | ref b ds =>
-      simp only [renderAll, argsOf, expected, substOf]
+      simp only [fmtOf, argsOf, expected, substOf]
       cases h : idxOf n ds with
-      | none => simpa using ih'
+      | none => simpa using ih
       | some i =>
         simp only [List.cons_append, List.nil_append]
-        rw [sprintfS_pct_s, ih']; rfl
+        rw [sprintfS_pct_s, ih]; rfl
 
-theorem renderAll_no_args (n : Nat) (caps : List Bytes) (segs : List Seg) (h : argsOf n caps segs = []) :
-    renderAll n segs = expected n caps segs := by
+/-- a segment list without references is its literal text -/
+theorem expected_no_refs (n : Nat) (caps : List Bytes) (segs : List Seg) (h : refsOf segs = []) :
+    expected n caps segs = flatSegs segs := by
   induction segs with
   | nil => rfl
   | cons s segs ih =>
     cases s with
-    | lit l => simp only [renderAll, expected]; rw [ih (by simpa [argsOf] using h)]
-    | ref b ds =>
-      simp only [argsOf] at h
-      cases hi : idxOf n ds with
-      | none =>
-        rw [hi] at h
-        simp only [renderAll, expected, substOf, hi]
-        rw [ih (by simpa using h)]
-      | some i => rw [hi] at h; simp at h
+    | lit l => simp only [expected, flatSegs, Seg.text]; rw [ih (by simpa [refsOf] using h)]
+    | ref b ds => simp [refsOf] at h
 
 /-! ### D. `expandSpec` on a segmented template -/
 
@@ -688,7 +803,7 @@ theorem expandSpec_flat (caps : List Bytes) : ∀ (segs : List Seg) (fuel : Nat)
     | lit l =>
       have hl := segOk_lit l (hok _ List.mem_cons_self)
       simp only [flatSegs, Seg.text, List.length_append, specOut] at hf ⊢
-      rw [expandSpec_plain caps l fuel _ hl.1 (by omega)]
+      rw [expandSpec_plain caps l fuel _ hl (by omega)]
       rw [ih _ hok' (by simpa [followOk] using hfo) (by omega)]
     | ref b ds =>
       obtain ⟨hne, hd, _⟩ := segOk_ref b ds (hok _ List.mem_cons_self)
@@ -788,7 +903,7 @@ theorem refsAsciiFollowed_flat : ∀ (segs : List Seg) (fuel : Nat), (∀ s ∈ 
     | lit l =>
       have hl := segOk_lit l (hok _ List.mem_cons_self)
       simp only [flatSegs, Seg.text, List.length_append] at hf ⊢
-      rw [refsAsciiFollowed_plain l fuel _ hl.1 (by omega)]
+      rw [refsAsciiFollowed_plain l fuel _ hl (by omega)]
       exact ih _ hok' (by simpa [followOk] using hfo) (by omega)
     | ref b ds =>
       obtain ⟨hne, hd, _⟩ := segOk_ref b ds (hok _ List.mem_cons_self)
@@ -843,18 +958,8 @@ theorem expected_eq_specOut (n : Nat) (caps : List Bytes) (hc : caps.length ≤ 
           simp [h2, h1', this]
         · simp [h1, h2, h1']
 
-/-! ### putting it together -/
 
-theorem prefixFree_spec (ts : List Bytes) (h : prefixFree ts = true) :
-    ∀ a ∈ ts, ∀ b ∈ ts, a <+: b → a = b := by
-  intro a ha b hb hp
-  unfold prefixFree at h
-  have := List.all_eq_true.mp (List.all_eq_true.mp h a ha) b hb
-  simp only [Bool.or_eq_true, Bool.not_eq_true', beq_iff_eq] at this
-  rcases this with h1 | h1
-  · have := List.isPrefixOf_iff_prefix.mpr hp
-    rw [this] at h1; cases h1
-  · exact h1
+/-! ### putting it together -/
 
 theorem glob_format_segs (segs : List Seg) (caps : List Bytes) (n : Nat) (hs : SafeSegs segs = true)
     (hc : caps.length ≤ n) :
@@ -862,26 +967,200 @@ theorem glob_format_segs (segs : List Seg) (caps : List Bytes) (n : Nat) (hs : S
       some (expandSpec caps (flatSegs segs).length (flatSegs segs)) := by
   unfold SafeSegs at hs
   simp only [Bool.and_eq_true] at hs
-  obtain ⟨⟨hok0, hfo⟩, hpf0⟩ := hs
+  obtain ⟨hok0, hfo⟩ := hs
   have hok : ∀ s ∈ segs, segOk s = true := List.all_eq_true.mp hok0
-  have hpf := prefixFree_spec _ hpf0
   rw [expandSpec_flat caps segs _ hok hfo (Nat.le_refl _), ← expected_eq_specOut n caps hc segs hok]
-  rw [compileTemplate_eq_fold, findRefs_flat segs _ hok hfo (Nat.le_refl _)]
-  have hrender0 : flatSegs segs = render n [] segs := by
-    clear hok0 hfo hpf0 hok hpf
-    induction segs with
-    | nil => rfl
-    | cons s segs ih => cases s <;> simp [flatSegs, render, Seg.text, ← ih]
-  rw [fold_render n segs hok hpf (refsOf segs) ⟨[], flatSegs segs⟩ [] (fun m hm => mem_refsOf segs m hm) hrender0]
-  rw [render_all n _ segs (by intro t ht; rw [refTexts_eq] at ht; simpa using ht)]
-  unfold Formatter.format
-  simp only [List.nil_append]
+  unfold compileTemplate
+  rw [findRefs_flat segs _ hok hfo (Nat.le_refl _)]
+  simp only
   split
-  · rename_i hemp
-    have h0 : (refsOf segs).filterMap (fun m => idxOf n m.2) = [] := by simpa using hemp
-    have : argsOf n caps segs = [] := by rw [← args_eq, h0]; rfl
-    rw [renderAll_no_args n caps segs this]
-  · rw [args_eq]
-    exact sprintf_renderAll n caps segs hok
+  · -- no reference at all: the template is returned unchanged
+    rename_i hemp
+    have h0 : refsOf segs = [] := by simpa using hemp
+    simp only [Formatter.format, if_true]
+    rw [expected_no_refs n caps segs h0]
+  · -- at least one reference (usable or not): `Sprintf` on the escaped, substituted template
+    rw [substRefs_flat n segs _ hok hfo (Nat.le_refl _)]
+    simp only [Formatter.format, Bool.false_eq_true, if_false]
+    rw [args_eq]
+    exact sprintf_fmtOf n caps segs
+
+/-! ### E. totality: the format string never leaves the modelled `Sprintf` fragment -/
+
+/-- `%` occurs only in pairs `%%` (`pend`: an odd `%` has just been read) -/
+def pctPaired : Bool → Bytes → Bool
+  | pend, [] => !pend
+  | false, b :: r => if b == cPct then pctPaired true r else pctPaired false r
+  | true, b :: r => b == cPct && pctPaired false r
+
+/-- every `%` is the head of `%%` or `%s` -/
+def fmtOk : Bool → Bytes → Bool
+  | pend, [] => !pend
+  | false, b :: r => if b == cPct then fmtOk true r else fmtOk false r
+  | true, b :: r => (b == cPct || b == 115) && fmtOk false r
+
+theorem pctPaired_fmtOk : ∀ (s : Bytes) (pend : Bool), pctPaired pend s = true → fmtOk pend s = true := by
+  intro s
+  induction s with
+  | nil => intro pend h; cases pend <;> simp [pctPaired, fmtOk] at h ⊢
+  | cons b r ih =>
+    intro pend h
+    cases pend with
+    | false =>
+      simp only [pctPaired] at h
+      simp only [fmtOk]
+      split <;> rename_i hb
+      · simp only [hb, if_true] at h; exact ih _ h
+      · simp only [hb] at h; exact ih _ h
+    | true =>
+      simp only [pctPaired, Bool.and_eq_true] at h
+      simp only [fmtOk, Bool.and_eq_true, Bool.or_eq_true]
+      exact ⟨Or.inl h.1, ih _ h.2⟩
+
+theorem pctPaired_escapePct (s : Bytes) : pctPaired false (escapePct s) = true := by
+  induction s with
+  | nil => rfl
+  | cons b s ih =>
+    by_cases hb : (b == cPct) = true
+    · have hbe : b = cPct := by simpa using hb
+      subst hbe
+      rw [escapePct_cons_pct]
+      simpa [pctPaired] using ih
+    · have hb' : (b == cPct) = false := by simpa using hb
+      rw [escapePct_cons_plain b s hb']
+      simpa [pctPaired, hb'] using ih
+
+/-- skipping text without `%` -/
+theorem pctPaired_plain : ∀ (m r : Bytes), cPct ∉ m → pctPaired false (m ++ r) = pctPaired false r := by
+  intro m
+  induction m with
+  | nil => intro r _; rfl
+  | cons b m ih =>
+    intro r h
+    simp only [List.mem_cons, not_or] at h
+    have hb : (b == cPct) = false := by
+      cases hbb : (b == cPct) with
+      | false => rfl
+      | true => exfalso; apply h.1; simp at hbb; exact hbb.symm
+    simp only [List.cons_append, pctPaired, hb, Bool.false_eq_true, if_false]
+    exact ih r h.2
+
+/-- the pass keeps the invariant, for EVERY input in which `%` is paired and every fuel: bytes are
+    copied, references (which contain no `%`) are dropped or replaced by `%s` -/
+theorem substRefs_fmtOk (n : Nat) : ∀ (fuel : Nat) (s : Bytes) (pend : Bool), pctPaired pend s = true →
+    fmtOk pend (substRefs n fuel s).1 = true := by
+  intro fuel
+  induction fuel with
+  | zero => intro s pend h; simpa [substRefs] using pctPaired_fmtOk s pend h
+  | succ fuel ih =>
+    intro s pend h
+    cases s with
+    | nil => simpa [substRefs] using pctPaired_fmtOk [] pend h
+    | cons b rest =>
+      cases pend with
+      | true =>
+        simp only [pctPaired, Bool.and_eq_true] at h
+        have hbe : b = cPct := by simpa using h.1
+        subst hbe
+        have hd : (cPct == cDollar) = false := by decide
+        simp only [substRefs, hd, Bool.false_eq_true, if_false, fmtOk, beq_self_eq_true, Bool.true_or, Bool.true_and]
+        exact ih rest false h.2
+      | false =>
+        by_cases hd : (b == cDollar) = true
+        · have hbe : b = cDollar := by simpa using hd
+          subst hbe
+          have hp : (cDollar == cPct) = false := by decide
+          simp only [pctPaired, hp, Bool.false_eq_true, if_false] at h
+          simp only [substRefs, beq_self_eq_true, if_true]
+          cases hm : refMatchAt rest with
+          | none =>
+            simp only [fmtOk, hp, Bool.false_eq_true, if_false]
+            exact ih rest false h
+          | some x =>
+            obtain ⟨m, g, r⟩ := x
+            obtain ⟨hsp, hpm⟩ := refMatchAt_split rest m g r hm
+            rw [hsp, pctPaired_plain m r hpm] at h
+            have hr := ih r false h
+            simp only
+            cases atoiDigits g with
+            | none => exact hr
+            | some idx =>
+              simp only
+              split
+              · exact hr
+              · simpa [fmtOk] using hr
+        · have hd' : (b == cDollar) = false := by simpa using hd
+          simp only [substRefs, hd', Bool.false_eq_true, if_false]
+          by_cases hp : (b == cPct) = true
+          · simp only [pctPaired, hp, if_true] at h
+            simp only [fmtOk, hp, if_true]
+            exact ih rest true h
+          · have hp' : (b == cPct) = false := by simpa using hp
+            simp only [pctPaired, hp', Bool.false_eq_true, if_false] at h
+            simp only [fmtOk, hp', Bool.false_eq_true, if_false]
+            exact ih rest false h
+
+/-- on such a format string the modelled `Sprintf` is defined, with any number of arguments (too few:
+    `%!s(MISSING)`, too many: `%!(EXTRA …)`, both inside the model) -/
+theorem sprintfS_isSome_of_fmtOk : ∀ (k : Nat) (f : Bytes) (args : List Bytes), f.length ≤ k → fmtOk false f = true →
+    (sprintfS f args).isSome = true := by
+  intro k
+  induction k with
+  | zero =>
+    intro f args hk _
+    have : f = [] := by cases f <;> simp_all
+    subst this
+    cases args <;> simp [sprintfS]
+  | succ k ih =>
+    intro f args hk h
+    cases f with
+    | nil => cases args <;> simp [sprintfS]
+    | cons b rest =>
+      simp only [List.length_cons] at hk
+      by_cases hp : (b == cPct) = true
+      · simp only [fmtOk, hp, if_true] at h
+        cases rest with
+        | nil => simp [fmtOk] at h
+        | cons c rest' =>
+          simp only [fmtOk, Bool.and_eq_true, Bool.or_eq_true] at h
+          simp only [List.length_cons] at hk
+          have hbe : b = cPct := by simpa using hp
+          subst hbe
+          by_cases hc : (c == 115) = true
+          · have hce : c = 115 := by simpa using hc
+            subst hce
+            cases args with
+            | nil =>
+              rw [sprintfS.eq_def]
+              have := ih rest' [] (by omega) h.2
+              simp only [beq_self_eq_true, if_true, Option.isSome_map]
+              exact this
+            | cons a as =>
+              rw [sprintfS_pct_s, Option.isSome_map]
+              exact ih rest' as (by omega) h.2
+          · have hc' : (c == 115) = false := by simpa using hc
+            have hce : c = cPct := by
+              rcases h.1 with h1 | h1
+              · simpa using h1
+              · rw [h1] at hc'; cases hc'
+            subst hce
+            rw [sprintfS_pct_pct, Option.isSome_map]
+            exact ih rest' args (by omega) h.2
+      · have hp' : (b == cPct) = false := by simpa using hp
+        simp only [fmtOk, hp', Bool.false_eq_true, if_false] at h
+        rw [sprintfS_cons_plain b rest args hp', Option.isSome_map]
+        exact ih rest args (by omega) h
+
+/-- **`Format` is total**: for every template, every capture count and every capture list the result is
+    inside the modelled `Sprintf` fragment -/
+theorem compileTemplate_format_isSome (tmpl : Bytes) (n : Nat) (caps : List Bytes) :
+    ((compileTemplate tmpl n).format caps).isSome = true := by
+  unfold compileTemplate
+  simp only
+  split
+  · rfl
+  · simp only [Formatter.format, Bool.false_eq_true, if_false]
+    exact sprintfS_isSome_of_fmtOk _ _ _ (Nat.le_refl _)
+      (substRefs_fmtOk n _ _ false (pctPaired_escapePct tmpl))
 
 end SE
